@@ -72,8 +72,11 @@ def gen(ctx):
             else:
                 t = ctx.rng.choice([a for a in ALPHABET if not a[:1].isspace()])
                 r = ctx.rng.random()
-                if r < 0.15:
+                if r < 0.1:
                     steps.append(["join", "/" + G.rfc6901_escape(t)])
+                elif r < 0.15:
+                    # an absolute part whose first reference tokens are empty, or that ends in an empty token
+                    steps.append(["join", ctx.rng.choice(["//", "///", "/"]) + G.rfc6901_escape(t) + ctx.rng.choice(["", "/", "//"])])
                 elif r < 0.2:
                     steps.append(["join", G.rfc6901_escape(t) + "/" + G.rfc6901_escape(ctx.rng.choice(ALPHABET))])
                 else:
@@ -288,6 +291,16 @@ def _join_laws(ctx, c, s, q):
     rep = core.outcome(lambda: p / ("/" + G.rfc6901_escape(t)))
     if "ok" not in rep or [str(x) for x in rep["ok"].parts] != [t]:
         ctx.violation("a joined part that starts with a slash replaces the pointer", c, str(rep.get("ok", rep.get("err"))), "/" + G.rfc6901_escape(t))
+
+
+    for abs_toks in (["", t], ["", "", t], [t, ""], list(toks) + [t], [""] + list(toks)):
+        text = "".join("/" + G.rfc6901_escape(x) for x in abs_toks)
+        rep = core.outcome(lambda: p / text)
+        rep2 = core.outcome(lambda: p.join("zz", text))
+        for r in (rep, rep2):
+            if "ok" not in r or [str(x) for x in r["ok"].parts] != abs_toks or not (r["ok"] == JSONPointer(text)):
+                ctx.violation("a joined part that starts with a slash replaces the pointer (it is the pointer that text spells)", {**c, "part": text}, str(r.get("ok", r.get("err"))), text)
+                break
 
 
 def search(ctx):
